@@ -749,7 +749,10 @@ def judge(case, acc, seed=0):
                 rs = '+resetup-changing-sizes' if hist['reshape'] else '+resetup'
                 if is_first:
                     first_idx = pi
-                    ctx.Z, tiny, small = _first_point_classes(refcall, allx, seed * 31 + 7 + pi, S)
+                    Znew, tiny, small = _first_point_classes(refcall, allx, seed * 31 + 7 + pi, S)
+                    # a computed partial coloring outlives a setup: with coloring the pattern of the very first
+                    # linearization keeps governing (same sizes)
+                    ctx.Z = (ctx.Z | Znew) if (pi and cfg['coloring'] and not hist['reshape']) else Znew
                     tiny_first = bool(tiny.any())
                     if small.any():
                         acc.count('obs:hist:derivative-vanishes-at-first-linearization')
